@@ -187,7 +187,7 @@ def make_scsi_device(prog):
     cls = prog.cls("pyscsi.pyscsi.scsi_device", "SCSIDevice")
     dev = Instance(cls)
     dev.attrs.update({"_file_name": SymStr("devname"), "_read_write": False, "_file": External("file-handle"),
-                      "_ino": Sym.opaque("ino"), "_detect_replugged": False, "_buffering": -1})
+                      "_ino": External("recorded-ino"), "_detect_replugged": False, "_buffering": -1})
     return dev
 
 
